@@ -40,6 +40,8 @@ def gen_call(ctx: Ctx, M):
         agg = ("sum",)
     elif a < 0.7 and T in (1, 2, 4):
         agg = ("mean",)
+    elif M.P.big:
+        agg = ("const", [rng.choice([-2, -1, 1, 2, 3]) for _ in range(T)])     # the probe is cubic in J: not exact with *BIG
     else:
         agg = ("probe", [rng.choice([-2, -1, 1, 2, 3]) for _ in range(T)])
     chunk = rng.choice([None, None, 1, 2, T, T + 1])
@@ -62,7 +64,7 @@ def one(ctx: Ctx, M, call, dtypes):
                             call["agg"], call["chunk"], call["retain"], call["pre"], report)
     big = max_abs(mg)
     for dtype in dtypes:
-        if (dtype == torch.float32 and big * 4096 > 2 ** 22) or big > 2 ** 44:
+        if (dtype == torch.float32 and (big * 4096 > 2 ** 22 or P.big)) or big > 2 ** 44:
             ctx.count("skipped_magnitude")
             continue
         rerr, rg, _ = real_mtl(P, dtype, call["losses"], call["features"], call["tasks"], call["shared"],
